@@ -259,6 +259,43 @@ def resume (fs : FS) : Outcome :=
   | some (.dir es) => readSnap es
   | some .flag => .error
 
+/-- `config.load_model`: unset, a model-only directory (`xformer.loading.save_model`:
+    `model.pt` + `config.yaml`), or a full snapshot of another run (it has an `opt.pt`).
+    The directory lies outside the run directory; no save touches it. -/
+inductive LoadModel
+  | unset
+  | modelOnly (p : List Nat)
+  | snapshot (p o : List Nat)
+  deriving DecidableEq, Repr
+
+/-- how a trainer process starts -/
+inductive Start
+  | fresh                                          -- `init_weights()`, new optimiser
+  | warm (p : List Nat) (o : Option (List Nat))    -- parameters (and optimiser state) of `load_model`
+  | loaded (s : TrainState)                        -- the run's own latest snapshot
+  | error
+  deriving DecidableEq, Repr
+
+/-- `load_or_init_model` in full: the run's own `latest` wins and NOTHING of `load_model` is
+    applied after it (the early `return`); only without it the initial model (and its optimiser
+    state when it ships one) is used; else a fresh initialisation. -/
+def resumeWith (lm : LoadModel) (fs : FS) : Start :=
+  match resume fs with
+  | .loaded s => .loaded s
+  | .error => .error
+  | .fresh =>
+    match lm with
+    | .unset => .fresh
+    | .modelOnly p => .warm p none
+    | .snapshot p o => .warm p (some o)
+
+/-- the train state a process that did not resume starts from (`init` = `init_weights` and a
+    new optimiser, empty buffer, zero counters) -/
+def startState (init : TrainState) : LoadModel → TrainState
+  | .unset => init
+  | .modelOnly p => { init with params := p }
+  | .snapshot p o => { init with params := p, opt := o }
+
 /-! ### serve / train mode (`TrainingRun.serve_mode`, `train_mode`) -/
 
 structure Run where
@@ -302,12 +339,12 @@ inductive Event
   | crash (t : Trigger) (ord : Name → List FName) (k : Nat) -- killed after `k` operations of it
   | kill                                                    -- killed between saves
 
-/-- `init` is what `init_weights` and a fresh optimiser give -/
-def Event.apply (init : TrainState) : Event → Sys → Sys
+/-- `init` is what `init_weights` and a fresh optimiser give; `lm` is the run's `load_model` -/
+def Event.apply (init : TrainState) (lm : LoadModel) : Event → Sys → Sys
   | .start, sys =>
     match resume sys.fs with
     | .loaded s => { sys with mem := some s }
-    | .fresh => { sys with mem := some init }
+    | .fresh => { sys with mem := some (startState init lm) }
     | .error => { sys with mem := none }
   | .train p o b k pos ep, sys =>
     match sys.mem with
@@ -326,8 +363,8 @@ def Event.apply (init : TrainState) : Event → Sys → Sys
     | none => sys
   | .kill, sys => { sys with mem := none }
 
-def runHistory (init : TrainState) : List Event → Sys → Sys
+def runHistory (init : TrainState) (lm : LoadModel) : List Event → Sys → Sys
   | [], sys => sys
-  | e :: r, sys => runHistory init r (e.apply init sys)
+  | e :: r, sys => runHistory init lm r (e.apply init lm sys)
 
 end Tak.Snapshot
